@@ -232,6 +232,27 @@ PROPS.update({
                         "(b) after recovery at every sampled crash point each write acknowledged before it is visible and a later commit is never overwritten by an older one; nothing un-issued is visible"),
         "budget": {"quick": 45, "thorough": 900},
     },
+    "C32": {
+        "level": "exploration", "engine": "SCHED",
+        "rule": ("3-4 buckets (fixed and variable, all element types; names chosen so that none is a prefix of another) and 2-4 recording triggers with patterns from {*/1H/OHLCV, */1D/TICK, */*/OHLCV, "
+                 "*/*/TICK, AAA/*/*, BBB/1H/*, CCC/4H/OHLCV, */4H/*, DDD/*/TICK, */*/*}, injected through Container.InjectTriggerMatchers; 1-3 writer tasks with the background WAL writer under seeded "
+                 "preemption; the run ends with the real Shutdown (which drains the dispatcher); distinct_nontrivial = distinct (schedule hash, pattern list, #operations)"),
+        "faults": ["seeded preemption at every yield point (writer loop, dispatcher task, one task per trigger firing)", "virtual-time flush ticker"],
+        "assumptions": ["fixed-bucket requests carry at most one row per interval (a request's earlier row for the same interval is legitimately folded into the later one before flushing)",
+                        "a pattern matches a bucket component-wise ('*' = any one component); anchoring of the regular expression is not part of the property"],
+        "explanation": "oracle: multiset of (trigger, bucket, record id) delivered == records of acknowledged writes to buckets the trigger's pattern matches, each exactly once, with the written interval index, year file and column values; nothing delivered to non-matching triggers",
+        "budget": {"quick": 35, "thorough": 600},
+    },
+    "C24": {
+        "level": "exploration", "engine": "SCHED",
+        "rule": ("the real aggtrigger.NewTrigger on */1Min/OHLCV with destinations from {5Min; 5Min,1H; 15Min,1H; 1H; 5Min,15Min,1H; 1H,1D}; 2-7 (thorough 8-13) requests of 1-12 base bars with gaps, in one of four modes: "
+                 "in order, out of order, corrections of existing bars, mixed; virtual time passes between requests so that the chain dispatcher -> Fire -> query -> WriteCSM -> flush completes; "
+                 "distinct_nontrivial = distinct (mode, destinations, #requests, #base bars)"),
+        "faults": ["seeded preemption (0/2/10/30%) across the writer loop, dispatcher and trigger tasks", "virtual-time flush ticker"],
+        "assumptions": [A_MODEL],
+        "explanation": "oracle (at quiescence): each destination bucket holds exactly one bar per window that has base bars, with first open / max high / min low / last close / summed volume of the base bars the model says are currently stored",
+        "budget": {"quick": 30, "thorough": 600},
+    },
     "C09": {
         "level": "exploration", "engine": "MODEL", "rule": MODEL_RULE,
         "faults": ["none (fault-free configuration)", "graceful restart", "compression on/off", "highly compressible payload bursts"],
